@@ -76,6 +76,7 @@ type Store struct {
 	fmu         sync.Mutex
 	CommitFault func(proc string, nth int, ops []Event) *Fault // nil => none
 	DelFault    func(proc string, nth int, e Event) string     // "", "err", "cas", "die"
+	IterFault   func(proc string, iter int, nth int) error     // nil => none: error returned by the nth Next of an iterator
 	commitN     int
 	delN        int
 	// LogIter makes iterator items part of the trace.
@@ -254,6 +255,7 @@ type iterW struct {
 	inner storage.Iter
 	p     string
 	id    int
+	n     int // Next calls so far
 }
 
 func (it *iterW) Key() []byte { return it.inner.Key() }
@@ -261,6 +263,14 @@ func (it *iterW) Val() []byte { return it.inner.Val() }
 func (it *iterW) Next(ctx context.Context) error {
 	if it.st.IterNextGate {
 		it.st.gate("kv.next")
+	}
+	it.n++
+	if f := it.st.IterFault; f != nil {
+		// an injected transient iterator error (a timeout, a region error): the element is not consumed
+		if err := f(it.p, it.id, it.n); err != nil {
+			it.st.Rec.Log(Event{"e": "IterFault", "p": it.p, "it": it.id, "n": it.n})
+			return err
+		}
 	}
 	it.st.Rec.Mu.Lock()
 	err := it.inner.Next(ctx)
